@@ -344,13 +344,14 @@ Theorem add_inv w ds ps ridx k v w' r : tinv w ds ps ridx ->
   wf_bytes k -> len k < 2 ^ 32 -> len v < 2 ^ 32 -> wo_block_size o + len k + len v + 32 < 2 ^ 32 ->
   writer_add w k v = Ok (w', r) ->
   exists ds' ps' ridx', tinv w' ds' ps' ridx' /\
-    all_entries ds' ps' = all_entries ds ps ++ (if r then [(k, v)] else []).
+    all_entries ds' ps' = all_entries ds ps ++ (if r then [(k, v)] else []) /\
+    (r = true -> w_last_key w' = k).
 Proof.
   intros Hinv Hwf Hk Hv Hbig H. pose proof Hinv as [Hcore Hlast Hfresh Hlkwf Hlklen Hsize].
   pose proof Hcore as [Hc Hopt Hout Hdata Hindex Hblocks Hoffs Hfences Hsorted].
   unfold Writer.writer_add in H. rewrite Hc in H. unfold WRITER_GATE_IS_STRICT, WRITER_CUT_IS_GE, WRITER_ENTRY_OVERHEAD in H. cbn [negb] in H.
   match type of H with (if ?c then _ else _) = _ => destruct c eqn:Egate end.
-  { inversion H; subst w' r. exists ds, ps, ridx. split; [exact Hinv|]. rewrite app_nil_r. reflexivity. }
+  { inversion H; subst w' r. exists ds, ps, ridx. split; [exact Hinv|]. split; [rewrite app_nil_r; reflexivity|discriminate]. }
   (* accepted: the key is above the last key of the current block *)
   assert (Hlt : ps <> [] -> bcmp (lastkey ps) k = Lt).
   { intros Hne. destruct (Hlast Hne) as [Hl Hcnt]. rewrite <- Hl.
@@ -375,7 +376,7 @@ Proof.
         try reflexivity; try exact Eadd; try (cbn [w_closed w_opt]; congruence).
       { change (2 ^ 32) with 4294967296. unfold nrestarts. rewrite (bi_buf _ _ _ Hdata), (bi_restarts _ _ _ Hdata).
         cbn [map length]. change (len (enc_all [])) with 0. lia. }
-      exists [], ([] ++ [p]), ridx'. split; [exact Hinv'|]. apply all_entries_add; assumption.
+      exists [], ([] ++ [p]), ridx'. split; [exact Hinv'|]. split; [apply all_entries_add; assumption|reflexivity].
     + (* flush the block under the separator, then add to the fresh block *)
       assert (Hne : p0 :: ps0 <> []) by discriminate. rewrite <- Eps in *.
       destruct (Hlast Hne) as [Hl Hcnt]. specialize (Hlt Hne).
@@ -399,7 +400,7 @@ Proof.
         intros d' _ Hd'. rewrite last_app_one in Hd'. subst d'. rewrite Hdsep. exact Hs2. }
       { change (2 ^ 32) with 4294967296. rewrite (bi_buf _ _ _ Hd1). unfold nrestarts. rewrite (bi_restarts _ _ _ Hd1).
         cbn [map length]. change (len (enc_all [])) with 0. lia. }
-      exists (ds ++ [d]), ([] ++ [p]), ridx'. split; [exact Hinv'|]. cbn [app]. rewrite <- Hdps. apply all_entries_cut; assumption.
+      exists (ds ++ [d]), ([] ++ [p]), ridx'. split; [exact Hinv'|]. split; [cbn [app]; rewrite <- Hdps; apply all_entries_cut; assumption|reflexivity].
   - (* no cut *)
     destruct (bb_add (w_data w) k v) as [d| | |] eqn:Eadd; try discriminate. inversion H; subst w' r; clear H.
     match goal with |- context [tinv ?W _ _ _] =>
@@ -407,5 +408,400 @@ Proof.
       try reflexivity; try exact Eadd; try assumption; try (cbn [w_closed w_opt]; congruence).
     { intros E. destruct (Hfresh E) as (-> & _ & _). exact I. }
     { change (2 ^ 32) with 4294967296. rewrite Hest in Ecut. lia. }
-    exists ds, (ps ++ [p]), ridx'. split; [exact Hinv'|]. apply all_entries_add; assumption.
+    exists ds, (ps ++ [p]), ridx'. split; [exact Hinv'|]. split; [apply all_entries_add; assumption|reflexivity].
 Qed.
+
+(* the entries whose add returned success *)
+Definition kept (ops : list entry) (rs : list bool) : list entry := map fst (filter snd (combine ops rs)).
+
+Definition entry_fits (kv : entry) : Prop :=
+  wf_bytes (fst kv) /\ len (fst kv) < 2 ^ 32 /\ len (snd kv) < 2 ^ 32 /\
+  wo_block_size o + len (fst kv) + len (snd kv) + 32 < 2 ^ 32.
+
+Theorem adds_inv : forall ops w ds ps ridx w' rs, tinv w ds ps ridx -> Forall entry_fits ops ->
+  writer_adds w ops = Ok (w', rs) ->
+  exists ds' ps' ridx', tinv w' ds' ps' ridx' /\ all_entries ds' ps' = all_entries ds ps ++ kept ops rs.
+Proof.
+  induction ops as [|[k v] ops IH]; intros w ds ps ridx w' rs Hinv Hfit H; cbn [Writer.writer_adds] in H.
+  - inversion H; subst. exists ds, ps, ridx. split; [exact Hinv|]. unfold kept. cbn. rewrite app_nil_r. reflexivity.
+  - inversion Hfit as [|? ? (Hwf & Hk & Hv & Hbig) Hfit']; subst. cbn [fst snd] in *.
+    destruct (writer_add w k v) as [[w1 r]| | |] eqn:Ea; try discriminate.
+    destruct (writer_adds w1 ops) as [[w2 rs2]| | |] eqn:Er; try discriminate. inversion H; subst w' rs; clear H.
+    destruct (add_inv _ _ _ _ _ _ _ _ Hinv Hwf Hk Hv Hbig Ea) as (ds1 & ps1 & ridx1 & Hinv1 & He1 & _).
+    destruct (IH _ _ _ _ _ _ Hinv1 Hfit' Er) as (ds2 & ps2 & ridx2 & Hinv2 & He2).
+    exists ds2, ps2, ridx2. split; [exact Hinv2|]. rewrite He2, He1, <- app_assoc. f_equal.
+    unfold kept. cbn [combine filter snd]. destruct r; reflexivity.
+Qed.
+
+(* strictly increasing input: every add succeeds *)
+Fixpoint strictly_sorted (l : list bytes) : Prop :=
+  match l with
+  | a :: ((b :: _) as tl) => bcmp a b = Lt /\ strictly_sorted tl
+  | _ => True
+  end.
+
+Lemma add_accepts w k v w' r : w_closed w = false ->
+  (m_count_entries (w_m w) = 0 \/ bcmp k (w_last_key w) = Gt) -> writer_add w k v = Ok (w', r) -> r = true.
+Proof.
+  intros Hc Hg H. unfold Writer.writer_add in H. rewrite Hc in H.
+  match type of H with (if ?c then _ else _) = _ => assert (Eg : c = false) end.
+  { destruct Hg as [H0|Hgt]; [rewrite H0; reflexivity|]. rewrite Hgt. cbn [negb]. apply Bool.andb_false_r. }
+  rewrite Eg in H.
+  match type of H with (match ?r1 with Ok _ => _ | _ => _ end) = _ => destruct r1 as [w1| | |]; try discriminate end.
+  destruct (bb_add (w_data w1) k v); try discriminate. inversion H. reflexivity.
+Qed.
+
+Theorem adds_sorted : forall ops w ds ps ridx w' rs, tinv w ds ps ridx -> Forall entry_fits ops ->
+  (match ops with [] => True | kv :: _ => m_count_entries (w_m w) = 0 \/ bcmp (fst kv) (w_last_key w) = Gt end) ->
+  strictly_sorted (map fst ops) -> writer_adds w ops = Ok (w', rs) -> kept ops rs = ops.
+Proof.
+  induction ops as [|[k v] ops IH]; intros w ds ps ridx w' rs Hinv Hfit Hfirst Hs H; cbn [Writer.writer_adds] in H.
+  - inversion H. reflexivity.
+  - inversion Hfit as [|? ? (Hwf & Hk & Hv & Hbig) Hfit']; subst. cbn [fst snd] in *.
+    destruct (writer_add w k v) as [[w1 r]| | |] eqn:Ea; try discriminate.
+    destruct (writer_adds w1 ops) as [[w2 rs2]| | |] eqn:Er; try discriminate. inversion H; subst w' rs; clear H.
+    pose proof (add_accepts w k v w1 r (tc_open _ _ _ _ _ (ti_core _ _ _ _ Hinv)) Hfirst Ea) as ->.
+    destruct (add_inv _ _ _ _ _ _ _ _ Hinv Hwf Hk Hv Hbig Ea) as (ds1 & ps1 & ridx1 & Hinv1 & _ & Hlk).
+    unfold kept. cbn [combine filter snd map fst]. f_equal.
+    apply (IH w1 ds1 ps1 ridx1 w2 rs2 Hinv1 Hfit'); [| |exact Er].
+    + destruct ops as [|[k2 v2] ops]; [exact I|]. right. rewrite (Hlk eq_refl). cbn [fst map strictly_sorted] in *.
+      apply bcmp_lt_gt. tauto.
+    + cbn [map strictly_sorted] in Hs. destruct (map fst ops) eqn:E; [exact I|]. tauto.
+Qed.
+
+(* _mtbl_writer_finish: the last block, the index block, the trailer *)
+Theorem finish_inv w ds ps ridx w' : tinv w ds ps ridx -> writer_finish w = Ok w' ->
+  exists ds' ib ips iridx,
+    writer_bytes w' = concat (map frame (map d_stored ds')) ++ frame (bb_finish ib) ++ metadata_write (w_m w') /\
+    Forall dblk_ok ds' /\ offs_ok off0 ds' /\ fences_ok ds' None /\
+    bbinv ib ips iridx /\ Forall2 idx_entry ips ds' /\
+    m_index_block_offset (w_m w') = off0 + len (concat (map frame (map d_stored ds'))) /\
+    m_compression_algorithm (w_m w') = wo_comp o /\
+    m_bytes_index_block (w_m w') = len (frame (bb_finish ib)) /\
+    all_entries ds' [] = all_entries ds ps.
+Proof.
+  intros [Hcore Hlast Hfresh Hlkwf Hlklen Hsize] H. unfold Writer.writer_finish in H.
+  destruct (writer_flush w) as [w1| | |] eqn:Ef; try discriminate.
+  assert (Hw1 : exists ds', tcore w1 ds' [] [0%nat] None /\ all_entries ds' [] = all_entries ds ps).
+  { destruct ps as [|p0 ps0] eqn:Eps.
+    - destruct (Hfresh eq_refl) as (-> & _ & ->). unfold Writer.writer_flush in Ef.
+      rewrite (tc_open _ _ _ _ _ Hcore), (bb_is_empty _ _ (tc_data _ _ _ _ _ Hcore)) in Ef. inversion Ef; subst w1.
+      exists []. split; [exact Hcore|reflexivity].
+    - assert (Hne : p0 :: ps0 <> []) by discriminate. rewrite <- Eps in *. destruct (Hlast Hne) as [Hl _].
+      destruct (flush_core w ds ps ridx w1 Hcore Hne) as (d & Hc1 & Hdps & _); try assumption.
+      { rewrite Hl, bcmp_refl. discriminate. }
+      exists (ds ++ [d]). split; [exact Hc1|]. unfold all_entries. rewrite map_app, concat_app. cbn [map concat]. rewrite Hdps, !app_nil_r. reflexivity. }
+  destruct Hw1 as (ds' & [Hc Hopt Hout Hdata (ips & iridx & Hidx & Hrel) Hblocks Hoffs Hfences Hsorted] & Hall).
+  inversion H; subst w'; clear H.
+  exists ds', (w_index w1), ips, iridx.
+  destruct Hout as [Hb Hcnt Hd Hp Hbs Halg].
+  cbn [w_m m_index_block_offset m_compression_algorithm m_bytes_index_block].
+  splits; try assumption.
+  - unfold writer_bytes, writer_chunks in *. cbn [w_out]. cbn [rev]. rewrite !concat_app. cbn [concat].
+    rewrite !app_nil_r, <- !app_assoc, Hb. unfold frame. rewrite <- !app_assoc. reflexivity.
+  - rewrite frame_len. reflexivity.
+Qed.
+End Writer.
+
+(* ---- reader side: opening the file ---------------------------------------------------------- *)
+Lemma reader_open_layout pre idx m :
+  meta_small m -> m_index_block_offset m = len pre -> len (pre ++ frame idx ++ metadata_write m) < 2 ^ 64 ->
+  8 <= len idx ->
+  fst (reader_open (pre ++ frame idx ++ metadata_write m) false) =
+  Ok (Some (mkreader (pre ++ frame idx ++ metadata_write m) FORMAT_V2 (m_compression_algorithm m) false (block_init idx) m)).
+Proof.
+  intros Hm Hibo Hlen Hidx. destruct (metadata_roundtrip m Hm) as [Hrt Hml]. unfold MTBL_METADATA_SIZE in Hml.
+  set (f := pre ++ frame idx ++ metadata_write m) in *.
+  assert (Hs : len idx < 2 ^ 64) by (unfold f in Hlen; rewrite !len_app in Hlen; unfold frame in Hlen; rewrite !len_app in Hlen; lia).
+  pose proof (varint_encode64_len (len idx)) as Hl10.
+  assert (Hl1 : 0 < len (varint_encode64 (len idx))).
+  { rewrite varint_encode64_spec by exact Hs. pose proof (leb128_nonempty (len idx)).
+    destruct (leb128 (len idx)); [congruence|rewrite len_cons; lia]. }
+  set (hdr := varint_encode64 (len idx)) in *.
+  assert (Hfl : len (frame idx) = len hdr + 4 + len idx) by (unfold frame; rewrite !len_app, len_fixed32; fold hdr; lia).
+  assert (Hn : len f = len pre + len (frame idx) + 512) by (unfold f; rewrite !len_app, Hml; lia).
+  change (2 ^ 64) with 18446744073709551616 in *.
+  unfold reader_open. fold f. rewrite Hn. unfold MTBL_METADATA_SIZE.
+  replace (len pre + len (frame idx) + 512 <? 512) with false by lia.
+  replace (len pre + len (frame idx) + 512 - 512) with (len (pre ++ frame idx)) by (rewrite len_app; lia).
+  replace f with ((pre ++ frame idx) ++ metadata_write m) at 1 by (unfold f; rewrite <- app_assoc; reflexivity).
+  rewrite (drop_app_len (pre ++ frame idx) _ _ eq_refl). rewrite <- (app_nil_r (metadata_write m)) at 1.
+  rewrite app_nil_r, Hrt. unfold FORMAT_V2, FORMAT_V1. change (1 =? 0) with false. cbv iota.
+  unfold READER_MIN_BLOCK_V2. rewrite Hibo. unfold u64.
+  rewrite (N.mod_small (len pre + 512 + 13)) by lia.
+  replace ((len pre + len (frame idx) + 512 <? len pre + 512 + 13) || (len pre + 512 + 13 <? len pre)) with false by lia.
+  unfold f at 1. rewrite (drop_app_len pre _ _ eq_refl). unfold frame at 1. rewrite <- !app_assoc.
+  rewrite varint64_roundtrip by (change (2 ^ 64) with 18446744073709551616; exact Hs). fold hdr.
+  cbv iota beta. rewrite len_app.
+  replace ((len pre + len (frame idx) - len pre <? len hdr + 4) || (len pre + len (frame idx) - len pre - (len hdr + 4) <? len idx)) with false by lia.
+  replace f with ((pre ++ hdr ++ fixed_encode32 (crc32c_ref idx)) ++ idx ++ metadata_write m)
+    by (unfold f, frame; fold hdr; rewrite <- !app_assoc; reflexivity).
+  replace (len pre + len hdr + 4) with (len (pre ++ hdr ++ fixed_encode32 (crc32c_ref idx))) by (rewrite !len_app, len_fixed32; lia).
+  rewrite slice_app_mid. cbn [negb fst].
+  replace ((4 <=? len idx) && (len idx <? 8)) with false by lia.
+  reflexivity.
+Qed.
+
+(* ---- indexed views of the ghost lists ------------------------------------------------------- *)
+Definition frames_of (ds : list dblk) : bytes := concat (map frame (map d_stored ds)).
+
+Lemma frames_split : forall ds i, (i < length ds)%nat ->
+  frames_of ds = frames_of (firstn i ds) ++ frame (d_stored (nth i ds dummy_d)) ++ frames_of (skipn (S i) ds).
+Proof.
+  induction ds as [|d ds IH]; intros i Hi; [cbn in Hi; lia|]. destruct i as [|i].
+  - reflexivity.
+  - cbn [firstn skipn nth]. unfold frames_of in *. cbn [map concat]. rewrite (IH i) by (cbn in Hi; lia).
+    rewrite <- !app_assoc. reflexivity.
+Qed.
+
+Lemma offs_nth : forall ds off i, offs_ok off ds -> (i < length ds)%nat ->
+  d_off (nth i ds dummy_d) = off + len (frames_of (firstn i ds)).
+Proof.
+  induction ds as [|d ds IH]; intros off i Ho Hi; [cbn in Hi; lia|]. destruct Ho as [H1 H2]. destruct i as [|i].
+  - cbn. lia.
+  - cbn [nth firstn]. rewrite (IH _ i H2) by (cbn in Hi; lia). unfold frames_of. cbn [map concat]. rewrite len_app. lia.
+Qed.
+
+Lemma frame_pos s : 0 < len (frame s).
+Proof. unfold frame. rewrite !len_app, len_fixed32. lia. Qed.
+
+Lemma offs_lt ds off i j : offs_ok off ds -> (i < j < length ds)%nat ->
+  d_off (nth i ds dummy_d) < d_off (nth j ds dummy_d).
+Proof.
+  intros Ho Hij. rewrite (offs_nth ds off i Ho), (offs_nth ds off j Ho) by lia.
+  replace (firstn j ds) with (firstn i ds ++ firstn (j - i) (skipn i ds)).
+  2:{ rewrite <- (firstn_add' i (j - i)). f_equal. lia. }
+  unfold frames_of. rewrite !map_app, concat_app, len_app.
+  destruct (skipn i ds) as [|x rest] eqn:E.
+  { exfalso. apply (f_equal (@length dblk)) in E. rewrite skipn_length in E. cbn in E. lia. }
+  destruct (j - i)%nat as [|n] eqn:En; [lia|]. cbn [firstn map concat]. rewrite len_app. pose proof (frame_pos (d_stored x)). lia.
+Qed.
+
+Lemma fences_nth : forall ds f i, fences_ok ds f -> (S i < length ds)%nat ->
+  bcmp (d_sep (nth i ds dummy_d)) (firstkey (d_ps (nth (S i) ds dummy_d))) = Lt.
+Proof.
+  induction ds as [|d ds IH]; intros f i Hf Hi; [cbn in Hi; lia|]. destruct Hf as [H1 H2]. destruct i as [|i].
+  - destruct ds as [|d' ds]; [cbn in Hi; lia|]. exact H1.
+  - change (nth (S i) (d :: ds) dummy_d) with (nth i ds dummy_d). change (nth (S (S i)) (d :: ds) dummy_d) with (nth (S i) ds dummy_d).
+    apply (IH f). exact H2. cbn in Hi. lia.
+Qed.
+
+Lemma Forall2_nth {A B} (R : A -> B -> Prop) : forall l1 l2 da db i, Forall2 R l1 l2 -> (i < length l1)%nat -> R (nth i l1 da) (nth i l2 db).
+Proof.
+  induction l1 as [|a l1 IH]; intros l2 da db i H Hi; [cbn in Hi; lia|]. inversion H; subst. destruct i; [assumption|].
+  cbn [nth]. apply IH; [assumption|cbn in Hi; lia].
+Qed.
+Lemma Forall2_length' {A B} (R : A -> B -> Prop) l1 l2 : Forall2 R l1 l2 -> length l1 = length l2.
+Proof. induction 1; cbn; congruence. Qed.
+
+Lemma firstkey_le_last ps : ps <> [] -> sorted_ps ps -> bcmp (firstkey ps) (lastkey ps) <> Gt.
+Proof. intros Hne Hs. apply (sorted_le_last ps 0 Hs). destruct ps; [congruence|cbn; lia]. Qed.
+
+Section Seps.
+Variable dok : dblk -> Prop.
+Hypothesis dok_ne : forall d, dok d -> d_ps d <> [].
+Hypothesis dok_sorted : forall d, dok d -> sorted_ps (d_ps d).
+Hypothesis dok_sep : forall d, dok d -> bcmp (lastkey (d_ps d)) (d_sep d) <> Gt.
+
+(* separators increase strictly *)
+Lemma seps_sorted ds : Forall dok ds -> fences_ok ds None ->
+  forall i j, (i < j < length ds)%nat -> bcmp (d_sep (nth i ds dummy_d)) (d_sep (nth j ds dummy_d)) = Lt.
+Proof.
+  intros Hall Hf i j [Hij Hj]. rewrite Forall_forall in Hall.
+  assert (Hstep : forall a, (S a < length ds)%nat -> bcmp (d_sep (nth a ds dummy_d)) (d_sep (nth (S a) ds dummy_d)) = Lt).
+  { intros a Ha. pose proof (Hall _ (nth_In ds dummy_d Ha)) as Hd.
+    eapply bcmp_lt_le_trans; [apply (fences_nth ds None a Hf Ha)|].
+    pose proof (firstkey_le_last _ (dok_ne _ Hd) (dok_sorted _ Hd)) as H1. pose proof (dok_sep _ Hd) as H2.
+    destruct (bcmp (firstkey (d_ps (nth (S a) ds dummy_d))) (lastkey (d_ps (nth (S a) ds dummy_d)))) eqn:E1; [| |congruence].
+    - apply bcmp_eq in E1. rewrite E1. exact H2.
+    - rewrite (bcmp_lt_le_trans _ _ _ E1 H2). discriminate. }
+  induction j as [|j IH]; [lia|]. destruct (Nat.eq_dec i j) as [->|Hne]; [apply Hstep, Hj|].
+  eapply bcmp_lt_trans; [apply IH; lia|apply Hstep, Hj].
+Qed.
+End Seps.
+
+Lemma bbinv_nil_ridx b ridx : bbinv b [] ridx -> ridx = [0%nat].
+Proof.
+  intros Hb. destruct ridx as [|a [|c rest]].
+  - pose proof (bi_ridx_ne _ _ _ Hb) as H. cbn in H. lia.
+  - pose proof (bi_ridx_hd _ _ _ Hb) as H. cbn in H. subst. reflexivity.
+  - exfalso. pose proof (bi_ridx_inc _ _ _ Hb 0%nat 1%nat ltac:(cbn; lia)) as H. cbn in H.
+    destruct (bi_ridx_bound _ _ _ Hb c ltac:(cbn; auto)) as [Hl|[-> _]]; [cbn in Hl; lia|lia].
+Qed.
+
+Lemma map_nth_seq {A} (l : list A) d : map (fun k => nth k l d) (seq 0 (length l)) = l.
+Proof.
+  induction l as [|a l IH]; [reflexivity|]. cbn [length seq map nth]. f_equal.
+  rewrite <- seq_shift, map_map. exact IH.
+Qed.
+
+(* the table without entries *)
+Lemma empty_table_iter decompress r ib r0 :
+  r_index r = Some ib -> ab_entries ib = [] -> ab_restarts ib = [r0] -> reader_iter decompress r = Ok None.
+Proof.
+  intros Hi He Hr. unfold reader_iter. rewrite Hi. destruct ib as [es rs rl w]. cbn [ab_entries ab_restarts] in He, Hr. subst es rs.
+  unfold block_seek_to_first, seek_restart, nrest, restart_at. cbn [ab_restarts ab_entries length find_off nth N.to_nat].
+  change (0 <? N.of_nat 1) with true. cbn [negb].
+  replace (r0 <? 0) with false by (symmetry; apply N.ltb_ge, N.le_0_l). reflexivity.
+Qed.
+
+(* ---- the round trip -------------------------------------------------------------------------- *)
+Section RoundTrip.
+Variable compress_default : N -> bytes -> res bytes.
+Variable compress_level : N -> Z -> bytes -> res bytes.
+Variable decompress : N -> bytes -> res bytes.
+Hypothesis Hrt_default : forall a raw c, compress_default a raw = Ok c -> decompress a c = Ok raw.
+Hypothesis Hrt_level : forall a l raw c, compress_level a l raw = Ok c -> decompress a c = Ok raw.
+
+Lemma decompress_block o raw stored : compress_block compress_default compress_level o raw = Ok stored ->
+  (if wo_comp o =? COMP_NONE then Ok stored else decompress (wo_comp o) stored) = Ok raw.
+Proof.
+  unfold compress_block. destruct (wo_comp o =? COMP_NONE); [congruence|].
+  destruct (Z.eqb (wo_level o) DEFAULT_COMPRESSION_LEVEL).
+  - destruct (compress_default (wo_comp o) raw) as [c| | |] eqn:E; try discriminate. intros H. inversion H; subst. eapply Hrt_default, E.
+  - destruct (compress_level (wo_comp o) (wo_level o) raw) as [c| | |] eqn:E; try discriminate. intros H. inversion H; subst. eapply Hrt_level, E.
+Qed.
+
+Definition Bof (ds : list dblk) (i : nat) : ablock := d_ab (nth i ds dummy_d).
+Definition Rof (ds : list dblk) (i : nat) : list nat := d_ridx (nth i ds dummy_d).
+
+Lemma entries_of_blocks ds : table_entries_of (length ds) (Bof ds) = all_entries ds [].
+Proof.
+  unfold table_entries_of, Gents, G, G_upto, all_entries. cbn [map]. rewrite app_nil_r.
+  unfold Bof, d_ab. cbn [ab_entries].
+  rewrite <- (map_nth_seq ds dummy_d) at 2. rewrite map_map, concat_map, map_map. reflexivity.
+Qed.
+
+Theorem written_table_ok o prefix ops w' rs :
+  1 <= wo_interval o -> Forall (entry_fits o) ops ->
+  writer_session compress_default compress_level o (len prefix) ops = Ok (w', rs) ->
+  meta_small (w_m w') -> m_bytes_index_block (w_m w') < 2 ^ 32 -> len (prefix ++ writer_bytes w') < 2 ^ 64 ->
+  exists r, fst (reader_open (prefix ++ writer_bytes w') false) = Ok (Some r) /\
+    ((kept ops rs = [] /\ exists ib r0, r_index r = Some ib /\ ab_entries ib = [] /\ ab_restarts ib = [r0]) \/
+     (exists ib iridx ds, table_ok decompress r ib iridx (length ds) (Bof ds) (Rof ds) /\
+                          table_entries_of (length ds) (Bof ds) = kept ops rs)).
+Proof.
+  intros Hint Hfit Hsess Hmeta Hidxsz Hflen. unfold writer_session in Hsess.
+  destruct (writer_adds compress_default compress_level (writer_init o (len prefix)) ops) as [[w rs0]| | |] eqn:Eadds; try discriminate.
+  destruct (writer_finish compress_default compress_level w) as [wf| | |] eqn:Efin; try discriminate.
+  inversion Hsess; subst wf rs0; clear Hsess.
+  pose proof (tinv_init compress_default compress_level o (len prefix) Hint) as Hinv0.
+  destruct (adds_inv _ _ _ _ _ _ _ _ _ _ _ Hinv0 Hfit Eadds) as (ds1 & ps1 & ridx1 & Hinv1 & Hent1).
+  destruct (finish_inv _ _ _ _ _ _ _ _ _ Hinv1 Efin) as (ds & ib & ips & iridx & Hbytes & Hblocks & Hoffs & Hfences & Hib & Hrel & Hibo & Halg & Hibytes & Hent).
+  unfold all_entries in Hent1 at 2. cbn [map concat app] in Hent1. rewrite Hent1 in Hent. clear Hent1.
+  set (idx := bb_finish ib) in *. set (m := w_m w') in *.
+  fold (frames_of ds) in Hbytes, Hibo.
+  assert (Hf : prefix ++ writer_bytes w' = (prefix ++ frames_of ds) ++ frame idx ++ metadata_write m)
+    by (rewrite Hbytes, <- !app_assoc; reflexivity).
+  rewrite Hf in *.
+  assert (Hidx8 : 8 <= len idx).
+  { unfold idx, bb_finish. rewrite !len_app, len_fixed32.
+    assert (0 < nrestarts ib) by (unfold nrestarts; rewrite (bi_restarts _ _ _ Hib), map_length; pose proof (bi_ridx_ne _ _ _ Hib); lia).
+    destruct (UINT32_MAX <? len (bb_buf ib)).
+    - pose proof (len_concat_map (fun r => fixed_encode64 r) (bb_restarts ib)) as E. rewrite E.
+      unfold nrestarts in H. destruct (bb_restarts ib); [cbn in H; lia|]. cbn [fold_right]. rewrite len_fixed64. lia.
+    - pose proof (len_concat_map (fun r => fixed_encode32 r) (bb_restarts ib)) as E. rewrite E.
+      unfold nrestarts in H. destruct (bb_restarts ib); [cbn in H; lia|]. cbn [fold_right]. rewrite len_fixed32. lia. }
+  assert (Hlenidx : len idx < 2 ^ 32).
+  { rewrite Hibytes in Hidxsz. unfold frame in Hidxsz. rewrite !len_app in Hidxsz. lia. }
+  assert (Hcase : ds = [] \/ (0 < length ds)%nat) by (destruct ds; [left; reflexivity|right; cbn; lia]).
+  rewrite (reader_open_layout (prefix ++ frames_of ds) idx m Hmeta) by (try assumption; rewrite len_app; exact Hibo).
+  eexists. split; [reflexivity|].
+  set (r := mkreader _ _ _ _ _ _).
+  destruct Hcase as [Eds|Hnelen].
+  - (* no data block *)
+    left. rewrite Eds in Hrel, Hent. inversion Hrel; subst ips. split; [symmetry; exact Hent|].
+    pose proof (bbinv_nil_ridx _ _ Hib) as ->.
+    exists (mkab [] [0] 8 false), 0. unfold r; cbn [r_index]. split; [apply block_init_finish_empty, Hib|split; reflexivity].
+  - right.
+    assert (Hlenips : length ips = length ds) by (eapply Forall2_length'; exact Hrel).
+    assert (Hipsne : ips <> []) by (intros E; rewrite E in Hlenips; cbn in Hlenips; lia).
+    assert (Hdok : forall i, (i < length ds)%nat -> dblk_ok compress_default compress_level o (nth i ds dummy_d)).
+    { intros i Hi. rewrite Forall_forall in Hblocks. apply Hblocks, nth_In, Hi. }
+    assert (Hips_sorted : sorted_ps ips).
+    { intros i j Hij. destruct (Forall2_nth _ _ _ dummy_pe dummy_d i Hrel ltac:(lia)) as [-> _].
+      destruct (Forall2_nth _ _ _ dummy_pe dummy_d j Hrel ltac:(lia)) as [-> _].
+      apply (seps_sorted (dblk_ok compress_default compress_level o)); try assumption; try lia.
+      - intros d (H & _). exact H.
+      - intros d (_ & H & _). exact H.
+      - intros d (_ & _ & _ & _ & _ & H). exact H. }
+    set (iab := mkab ips (map (offset_of ips) iridx) (len idx) false).
+    exists iab, iridx, ds. split; [|rewrite entries_of_blocks; exact Hent].
+    constructor.
+    + unfold r; cbn [r_index]. apply block_init_finish; assumption.
+    + apply (finish_wfb ib); assumption.
+    + unfold nentries. cbn [iab ab_entries]. exact Hlenips.
+    + (* loading block i *)
+      intros i Hi. destruct (Hdok i Hi) as (Hne & Hsorted & Hinit & Hwfb & Hcomp & Hsep).
+      destruct (Forall2_nth _ _ _ dummy_pe dummy_d i Hrel ltac:(lia)) as [_ Hval].
+      assert (Hoff : d_off (nth i ds dummy_d) = len (prefix ++ frames_of (firstn i ds))).
+      { rewrite (offs_nth ds (len prefix) i Hoffs Hi), len_app. reflexivity. }
+      assert (Hfile : r_file r = (prefix ++ frames_of (firstn i ds)) ++ frame (d_stored (nth i ds dummy_d)) ++
+                                 (frames_of (skipn (S i) ds) ++ frame idx ++ metadata_write m)).
+      { unfold r; cbn [r_file]. rewrite (frames_split ds i Hi) at 1. rewrite <- !app_assoc. reflexivity. }
+      assert (Hbound : d_off (nth i ds dummy_d) < 2 ^ 64 /\ len (d_stored (nth i ds dummy_d)) < 2 ^ 64).
+      { unfold r in Hfile; cbn [r_file] in Hfile. rewrite Hfile in Hflen. rewrite Hoff. rewrite !len_app in Hflen. unfold frame in Hflen at 1.
+        rewrite !len_app in Hflen. rewrite len_app. lia. }
+      unfold ioff, entry_at. cbn [iab ab_entries]. rewrite Hval, <- (app_nil_r (varint_encode64 _)).
+      rewrite varint64_roundtrip by tauto. rewrite Hoff.
+      eapply get_block_frame; [reflexivity|reflexivity|exact Hfile|tauto| |exact Hinit].
+      unfold r. cbn [r_comp]. rewrite Halg. apply decompress_block, Hcomp.
+    + intros i Hi. destruct (Hdok i Hi) as (_ & _ & _ & Hwfb & _). exact Hwfb.
+    + (* distinct offsets *)
+      assert (Hio : forall i, (i < length ds)%nat -> ioff iab i = d_off (nth i ds dummy_d)).
+      { intros i Hi. destruct (Forall2_nth _ _ _ dummy_pe dummy_d i Hrel ltac:(lia)) as [_ Hval].
+        unfold ioff, entry_at. cbn [iab ab_entries]. rewrite Hval, <- (app_nil_r (varint_encode64 _)).
+        rewrite varint64_roundtrip; [reflexivity|].
+        rewrite (offs_nth ds (len prefix) i Hoffs Hi). rewrite (frames_split ds i Hi) in Hflen. rewrite !len_app in Hflen. lia. }
+      intros i j Hi Hj E. rewrite (Hio i Hi), (Hio j Hj) in E.
+      destruct (Nat.lt_trichotomy i j) as [Hlt|[->|Hgt]]; [|reflexivity|].
+      * pose proof (offs_lt ds _ i j Hoffs ltac:(lia)). lia.
+      * pose proof (offs_lt ds _ j i Hoffs ltac:(lia)). lia.
+    + intros i Hi. destruct (Hdok i Hi) as (Hne & _ & _ & _ & _ & Hsep).
+      destruct (Forall2_nth _ _ _ dummy_pe dummy_d i Hrel ltac:(lia)) as [Hkey _].
+      unfold key_at, entry_at, Bof, d_ab, nentries. cbn [iab ab_entries]. rewrite Hkey, <- lastkey_nth by exact Hne. exact Hsep.
+    + intros i Hi. destruct (Forall2_nth _ _ _ dummy_pe dummy_d i Hrel ltac:(lia)) as [Hkey _].
+      unfold key_at, entry_at, Bof, d_ab. cbn [iab ab_entries]. rewrite Hkey. apply (fences_nth ds None i Hfences Hi).
+Qed.
+End RoundTrip.
+
+Section RoundTrip2.
+Variable compress_default : N -> bytes -> res bytes.
+Variable compress_level : N -> Z -> bytes -> res bytes.
+Variable decompress : N -> bytes -> res bytes.
+Hypothesis Hrt_default : forall a raw c, compress_default a raw = Ok c -> decompress a c = Ok raw.
+Hypothesis Hrt_level : forall a l raw c, compress_level a l raw = Ok c -> decompress a c = Ok raw.
+
+(* opening the written file and iterating from the start returns exactly the entries whose add
+   succeeded, in order *)
+Theorem roundtrip_read_all o prefix ops w' rs :
+  1 <= wo_interval o -> Forall (entry_fits o) ops ->
+  writer_session compress_default compress_level o (len prefix) ops = Ok (w', rs) ->
+  meta_small (w_m w') -> m_bytes_index_block (w_m w') < 2 ^ 32 -> len (prefix ++ writer_bytes w') < 2 ^ 64 ->
+  forall fuel, (length (kept ops rs) < fuel)%nat ->
+  read_all decompress fuel (prefix ++ writer_bytes w') = Ok (kept ops rs).
+Proof.
+  intros Hint Hfit Hsess Hmeta Hidx Hlen fuel Hfuel.
+  destruct (written_table_ok compress_default compress_level decompress Hrt_default Hrt_level o prefix ops w' rs Hint Hfit Hsess Hmeta Hidx Hlen)
+    as (r & Hopen & [(Hk & ib & r0 & Hi & He & Hr)|(ib & iridx & ds & Htab & Hent)]).
+  - unfold read_all. rewrite Hopen, (empty_table_iter decompress r ib r0 Hi He Hr), Hk. reflexivity.
+  - unfold read_all. rewrite Hopen.
+    destruct (table_iter_all decompress r ib iridx (length ds) (Bof ds) (Rof ds) Htab fuel) as (it & -> & Hdrain).
+    + assert (E : length (table_entries_of (length ds) (Bof ds)) = total (length ds) (Bof ds)) by (unfold table_entries_of, Gents, total; apply map_length).
+      rewrite Hent in E. lia.
+    + rewrite Hdrain, Hent. reflexivity.
+Qed.
+
+(* for strictly increasing keys every add succeeds: the table is the input *)
+Theorem roundtrip_sorted o prefix es w' rs :
+  1 <= wo_interval o -> Forall (entry_fits o) es -> strictly_sorted (map fst es) ->
+  writer_session compress_default compress_level o (len prefix) es = Ok (w', rs) ->
+  kept es rs = es.
+Proof.
+  intros Hint Hfit Hs Hsess. unfold writer_session in Hsess.
+  destruct (writer_adds compress_default compress_level (writer_init o (len prefix)) es) as [[w rs0]| | |] eqn:Eadds; try discriminate.
+  destruct (writer_finish compress_default compress_level w) as [wf| | |]; try discriminate. inversion Hsess; subst wf rs0.
+  eapply (adds_sorted compress_default compress_level o (len prefix)); [apply tinv_init, Hint|exact Hfit| |exact Hs|exact Eadds].
+  destruct es; [exact I|]. left. reflexivity.
+Qed.
+End RoundTrip2.
